@@ -33,7 +33,7 @@ PROPS = {
         assumptions=['the damping factor is the one the code documents/implements: 0.5(sin(pi(-0.5+(count+1)/n_damp))+1)',
                      'tolerances are 4x the solver\'s own epsilon (2*eps*tf*count)',
                      'requested output times are strictly increasing and separated by more than 8 epsilon (duplicates form a separate input class)'],
-        quick=dict(runs=40000, budget_s=45),
+        quick=dict(runs=200000, budget_s=60),
         thorough=dict(runs=4000000, budget_s=1200),
     ),
 }
